@@ -62,6 +62,23 @@ def array_rules(prog, chk, rid):
                 oke, _p = C.after_all_pass(f, f.node_pos(dels[0]), q.pos_of(f, ends))
                 after_loop = all(not q.reaches(f, dels[0], p) for p in pn)
                 good = okp and oke and after_loop
+            if good and news:
+                # no way from the allocation to the re-seat around the delete[] - unless over an edge that says the old pointer is null
+                cut = set()
+                for b_ in f.blocks.values():
+                    nt_ = fin.null_test(f, b_.get("cond")) if len(b_["succ"]) == 2 and b_.get("tk") != "SwitchStmt" else None
+                    if nt_ is not None and nt_[0] == "this->_begin.item" and b_["succ"][nt_[1]] is not None:
+                        cut.add((b_["id"], b_["succ"][nt_[1]]))
+                for sn in seats:
+                    leak = fin.path_with_cuts(f, f.node_pos(news[0]), f.node_pos(sn), avoid=q.pos_of(f, dels), cut=cut)
+                    if leak is not None:
+                        good = False
+                        chk.bad(rid, f, "reserve-old-block-not-freed", f.where(sn),
+                                "a path (lines %s) re-seats _begin.item on the new block without delete[] of the old one, and nothing on it says "
+                                "the old pointer was null: an array that owns a block but holds no elements leaks it" % f.path_lines(leak)[:8])
+                        break
+                if not good:
+                    continue
             if good:
                 chk.ok(rid, f, "old block freed once, after the copy loop, then _begin/_end re-seated", where, "MPT", evals=3)
             else:
